@@ -21,6 +21,7 @@ def known_findings(rep):
 
 def run(rep, tier, seed, model_ok):
     rng = random.Random(seed)
+    parsechk.corpus_campaign(rep)
     n = 700 if tier == "quick" else 8000
     rep.cov["rule"] = ("files rendered from the canonical file language (gen.py): statements over the product of macro path "
                        "form x configured macro x target x key-value shapes and modifiers x message contents (placeholders, "
